@@ -11,7 +11,7 @@ import Grass.Proto
     value/number.rs:378-398  real_mod, modulo
     serializer.rs:568-606    write_float
     parse/value.rs:980-1092  parse_number, try_decimal, try_exponent
-    value/mod.rs:341-386     Value::cmp          (ordering of numbers)
+    value/mod.rs:341-393     Value::cmp          (ordering of numbers, tolerance-aware)
     evaluate/bin_op.rs       add / sub / mul / div / rem on unitless numbers
     builtin/functions/math.rs round / ceil / floor / abs, list.rs:11 nth
 
@@ -478,9 +478,10 @@ def eqD (a b : D) : Bool :=
   | some x, some y => fuzzyEqF x y
   | _, _ => D.eq a b
 
-/-- Ordering of two numbers.  `exactOrder = true` is the code as it stands (value/mod.rs:355
-    `num.partial_cmp(num2)` on the derived `PartialOrd` of `Number(f64)`: plain IEEE order);
-    `false` is the specified behaviour: numbers within the tolerance are equal. -/
+/-- Ordering of two numbers, value/mod.rs:341 `Value::cmp`.  `exactOrder = false` is the code as it
+    stands (numbers that are `==` within tolerance give `Ordering::Equal`, otherwise the raw
+    `partial_cmp` of the doubles); `exactOrder = true` is the variant found on the pinned tree
+    (plain IEEE order although `==` is fuzzy; fixed since) and is used only in the as-found witness. -/
 def cmpD (exactOrder : Bool) (a b : D) : Option Ordering :=
   if a.isNan || b.isNan then none
   else if !exactOrder && eqD a b then some .eq
@@ -504,16 +505,17 @@ def printV (compressed : Bool) : V → List Char
   | .bool b => (if b then "true" else "false").toList
   | .str s => '"' :: s ++ ['"']
 
-/-- list.rs:11 `nth` on the list `1 2 … len`.  `exactOrder = true`: the range test
-    `index.abs() > len` is the exact IEEE comparison and runs before the integer check (code as it
-    stands); `false`: integer check first, range on the integer (specified). -/
+/-- list.rs:11 `nth` on the list `1 2 … len`.  `exactOrder = false` is the code as it stands: zero
+    test, integer check (`fuzzy_as_int`, which rejects non-finite numbers), range test on the integer,
+    position by the sign bit.  `exactOrder = true` is the variant found on the pinned tree: the range
+    test `index.abs() > len` was the exact IEEE comparison and ran before the integer check. -/
 def nthV (exactOrder : Bool) (len : Nat) (d : D) : Except Err V :=
   match d with
-  | .nan => .error .notInt      -- NaN: `is_zero` false, `abs > len` false, fuzzy_as_int none
+  | .nan => .error .notInt      -- NaN: `is_zero` false, fuzzy_as_int none
   | _ =>
   if eqD d (.fin 0) then .error .zeroIdx else
   match d.toRat? with
-  | none => .error .badIdx       -- ±∞ exceeds every length
+  | none => if exactOrder then .error .badIdx else .error .notInt    -- ±∞
   | some x =>
     if exactOrder then
       if (len : Rat) < absQ x then .error .badIdx else
@@ -528,7 +530,7 @@ def nthV (exactOrder : Bool) (len : Nat) (d : D) : Except Err V :=
       | none => .error .notInt
       | some i =>
         if (len : Int) < i.natAbs then .error .badIdx else
-        let pos : Int := if i < 0 then (len : Int) - i.natAbs + 1 else i
+        let pos : Int := if d.isNeg then (len : Int) - i.natAbs + 1 else i
         if 1 ≤ pos ∧ pos ≤ len then .ok (.num (.fin (pos : Rat))) else .error .unsupported
 
 def evalUn (exactOrder : Bool) (o : Op1) (v : V) : Except Err V :=
@@ -639,16 +641,16 @@ def verdicts (compressed : Bool) (x : Rat) (s : List Char) : String :=
   s!"shape={boolStr (shapeOK s && leadOK compressed s)} round={boolStr (roundedOK x s)} reread={rr} rereadX={boolStr (rereadX x s)} d15={boolStr (d15Class x)} d15X={boolStr (d15ClassX x)} exact={boolStr (parseLit s |>.map (fun l => decide (l.value = round10 x)) |>.getD false)}"
 
 def handle : List String → String
-  -- eval <c|e> <rpn…> : the model of the code as it stands | the specified ordering variant
+  -- eval <c|e> <rpn…> : the model of the code as it stands | the variant found on the pinned tree (exact order)
   | "eval" :: st :: toks =>
     match parseBool? (if st == "c" then "1" else if st == "e" then "0" else st), rpn toks [] with
-    | some c, some e => resStr c (eval true e) ++ " | " ++ resStr c (eval false e)
+    | some c, some e => resStr c (eval false e) ++ " | " ++ resStr c (eval true e)
     | _, _ => "bad-op"
   -- value <rpn…> : exact value of the model's result (finite numbers only)
   | "value" :: toks =>
     match rpn toks [] with
     | some e =>
-      match eval true e with
+      match eval false e with
       | .ok (.num (.fin q)) => "ok " ++ ratStr q
       | .ok (.num .nz) => "ok -0"
       | .ok (.num .pinf) => "ok inf" | .ok (.num .ninf) => "ok -inf" | .ok (.num .nan) => "ok nan"
@@ -659,7 +661,7 @@ def handle : List String → String
   | "check" :: st :: hx :: toks =>
     match parseBool? (if st == "c" then "1" else if st == "e" then "0" else st), hexDecode hx, rpn toks [] with
     | some c, some txt, some e =>
-      match eval true e with
+      match eval false e with
       | .ok (.num (.fin q)) => "ok fin " ++ verdicts c q txt.toList
       | .ok (.num .nz) => "ok fin " ++ verdicts c 0 txt.toList
       | .ok (.num d) => "ok special " ++ boolStr (txt.toList == printD false c d)
